@@ -415,13 +415,13 @@ func runC13(t *mon.T, raw json.RawMessage) {
 
 func genC13(g *mon.G) {
 	r := gen.Rand(g.Seed)
-	for i := 0; i < g.Pick(300, 4000); i++ {
+	for i := 0; i < g.Pick(1000, 20000); i++ {
 		g.Emit(c13Desc{Seed: r.Int63(), Family: "valid"})
 	}
-	for i := 0; i < g.Pick(150, 1500); i++ {
+	for i := 0; i < g.Pick(400, 8000); i++ {
 		g.Emit(c13Desc{Seed: r.Int63(), Family: "typed"})
 	}
-	for i := 0; i < g.Pick(100, 1000); i++ {
+	for i := 0; i < g.Pick(300, 6000); i++ {
 		g.Emit(c13Desc{Seed: r.Int63(), Family: "random"})
 	}
 }
